@@ -82,7 +82,7 @@ pub fn enumerated(max_len: usize, batch: usize) -> Vec<LpBatch> {
             }
         }
     }
-    specs.chunks(batch).enumerate().map(|(k, c)| LpBatch { host: if k % 3 == 2 { Host::ShCrlf } else { Host::Sh }, specs: c.to_vec() }).collect()
+    specs.chunks(batch).enumerate().map(|(k, c)| LpBatch { host: if k % 3 == 2 { Host::ShCrlf } else if k % 3 == 1 { Host::ShTrail } else { Host::Sh }, specs: c.to_vec() }).collect()
 }
 
 fn long_spec() -> BoxedStrategy<LpSpec> {
@@ -102,11 +102,11 @@ fn long_spec() -> BoxedStrategy<LpSpec> {
 }
 
 pub fn random_batch() -> BoxedStrategy<LpBatch> {
-    (prop_oneof![Just(Host::Sh), Just(Host::Rb), Just(Host::ShCrlf)], proptest::collection::vec(long_spec(), 1..6)).prop_map(|(host, specs)| LpBatch { host, specs }).boxed()
+    (prop_oneof![Just(Host::Sh), Just(Host::Rb), Just(Host::ShCrlf), Just(Host::ShTrail)], proptest::collection::vec(long_spec(), 1..6)).prop_map(|(host, specs)| LpBatch { host, specs }).boxed()
 }
 
 pub fn run(run: &mut Run) {
-    run.rule = "enumerated: every line sequence of length 0..k (k=4 quick, 5 thorough) over a 13-line alphabet (matching, non-matching, indented, blank, partially matching lines) x 12 anchored/unanchored patterns with hand-written predicates (5 of them can match the empty string, one is a bare zero-width assertion), plus 2 patterns with a significant blank at an edge over an 8-line alphabet of lines differing in exactly that blank; random: blocks of 5..150 lines incl. Unicode. Non-trivial block = at least 2 non-blank lines and (matching and failing lines mixed, a blank line, or a padded line); distinct by (batch, block).".into();
+    run.rule = "layouts: own-line tag comments in LF and CRLF shell files, and shell files whose end-tag comment trails the last content line. enumerated: every line sequence of length 0..k (k=4 quick, 5 thorough) over a 13-line alphabet (matching, non-matching, indented, blank, partially matching lines) x 12 anchored/unanchored patterns with hand-written predicates (5 of them can match the empty string, one is a bare zero-width assertion), plus 2 patterns with a significant blank at an edge over an 8-line alphabet of lines differing in exactly that blank; random: blocks of 5..150 lines incl. Unicode. Non-trivial block = at least 2 non-blank lines and (matching and failing lines mixed, a blank line, or a padded line); distinct by (batch, block).".into();
     run.assumptions = vec![
         "content lines are shell/ruby words (block discovery itself is C03)".into(),
         "patterns come from a fixed family with hand-written predicates".into(),
